@@ -27,6 +27,69 @@ Definition parse_Z (x : str) : option Z :=
 Definition print_nat (n : nat) : str := print_Z (Z.of_nat n).
 
 (* ------------------------------------------------------------------ *)
+(** * Strings: a quoted literal and its reading
+
+    fixConst prints a string constant with [val.ExactString()] (strconv.Quote) and the literal is
+    read back by [constant.MakeFromLiteral(_, token.STRING, 0)] (strconv.Unquote). The model uses the
+    ASCII-only quoting: printable ASCII other than the quote and the backslash stands for itself,
+    every other byte is written \xHH. (strconv.Quote writes some of those bytes in shorter forms;
+    what matters to the property is that reading inverts printing, for every byte string.)
+    The same quoting is the transport format of string constants between the harness and Coq. *)
+
+Definition dq : ascii := """"%char.
+Definition bs : ascii := "\"%char.
+
+Definition printable (c : ascii) : bool :=
+  let n := nat_of_ascii c in
+  (32 <=? n)%nat && (n <? 127)%nat && negb (n =? 34)%nat && negb (n =? 92)%nat.
+
+Definition hexdigit (k : nat) : ascii :=
+  nth k (s "0123456789abcdef") "0"%char.
+
+Definition hexval (a : ascii) : option nat :=
+  let n := nat_of_ascii a in
+  if (48 <=? n)%nat && (n <=? 57)%nat then Some (n - 48)%nat
+  else if (97 <=? n)%nat && (n <=? 102)%nat then Some (n - 87)%nat
+  else None.
+
+Fixpoint quote_body (x : str) : str :=
+  match x with
+  | [] => []
+  | c :: r =>
+      (if printable c then [c]
+       else let n := nat_of_ascii c in [bs; "x"%char; hexdigit (n / 16); hexdigit (n mod 16)])
+      ++ quote_body r
+  end.
+
+Definition print_str (x : str) : str := dq :: quote_body x ++ [dq].
+
+(** reading up to the closing quote, which must be the last character *)
+Fixpoint unquote_body (x : str) : option str :=
+  match x with
+  | [] => None
+  | c :: r =>
+      if Ascii.eqb c dq then match r with [] => Some [] | _ => None end
+      else if Ascii.eqb c bs then
+        match r with
+        | e :: h :: l :: r' =>
+            if Ascii.eqb e "x"%char then
+              match hexval h, hexval l with
+              | Some a, Some b => option_map (cons (ascii_of_nat (16 * a + b))) (unquote_body r')
+              | _, _ => None
+              end
+            else None
+        | _ => None
+        end
+      else option_map (cons c) (unquote_body r)
+  end.
+
+Definition parse_str (x : str) : option str :=
+  match x with
+  | c :: r => if Ascii.eqb c dq then unquote_body r else None
+  | [] => None
+  end.
+
+(* ------------------------------------------------------------------ *)
 (** * Fractions (numerator, denominator > 0) *)
 
 Definition frac := (Z * Z)%type.
